@@ -6,6 +6,7 @@ import z3
 from pyvc.values import SNum, SBool, SBytes, Opaque, mk_num, to_term, Infeasible
 from pyvc import strings as STR
 from pyvc.strings import SStr
+STR.Atom = STR.Atom if hasattr(STR, 'Atom') else None
 from specs import S as SP
 from .codec_units import CodecUnit, sym_int, any_int
 
@@ -22,14 +23,23 @@ def prefix6_enc(addr, plen):
     return SP.cat(SP.be(plen, 1), prefix_enc(addr, plen, 16))
 
 
-def label_stack_enc(labels, withdraw=False):
-    """RFC 8277: 20-bit label, 3 bits TC (0), bottom-of-stack bit on the last entry"""
+def label_stack_enc(labels, withdraw=False, evpn=False):
+    """RFC 8277: 20-bit label, 3 bits TC (0), bottom-of-stack bit on the last entry.
+    evpn=True: the 3-octet MPLS label fields of an EVPN route (RFC 7432 puts the label in the high-order 20 bits and says
+    nothing about the low-order bits; the decoder under contract reads labels up to a set bottom-of-stack bit or the end of
+    the route, so either convention round-trips): the reference follows the emitted convention — bottom-of-stack bit on a
+    non-zero last label, none on a zero one — which two existing unit tests pin."""
     if withdraw:
         return b'\x80\x00\x00'
     out = []
     for i, l in enumerate(labels):
-        bos = 1 if i == len(labels) - 1 else 0
-        v = mk_num(to_term(l) * 16 + bos) if not isinstance(l, int) else l * 16 + bos
+        last = i == len(labels) - 1
+        if isinstance(l, int):
+            v = l * 16 + (1 if last and not (evpn and l == 0) else 0)
+        elif last and evpn:
+            v = mk_num(z3.If(to_term(l) == 0, 0, to_term(l) * 16 + 1))
+        else:
+            v = mk_num(to_term(l) * 16 + (1 if last else 0))
         out.append(SP.be(v, 3))
     return SP.cat(*out)
 
@@ -440,4 +450,116 @@ def units(props):
         return [SBytes.of(unreach_body(it._mp)), None]
     U('MpUnReachNLRI.parse', MPU + 'parse', mup_args,
       lambda it, v, ap: ('ret', {'afi_safi': (it._mp['afi'], it._mp['safi']), 'withdraw': it._mp['wd_decoded']}), concrete_loops=True)
+
+    # ---------------- EVPN (RFC 7432) route types 1-4
+    EV = N + 'evpn.'
+
+    def mac_value(it, tag):
+        m = sym_int(it, 'mac_' + tag, 0, 2 ** 48 - 1)
+        return SStr([STR.Atom('mac', m.t)]), SP.be(m, 6)
+
+    def esi_value(it, tag, kind=None):
+        k = it.p.choose(6, 'esi-type-' + tag) if kind is None else kind
+        if k == 0:
+            v = addr_full(it, 'esi_v_' + tag, 9)          # a 9-octet number, as the sum of its octets
+            return {'type': 0, 'value': v}, SP.cat(b'\x00', SP.be(v, 9))
+        if k in (1, 2):
+            mt, mb = mac_value(it, 'esi_' + tag)
+            x = sym_int(it, 'esi_x_' + tag, 0, 65535)
+            names = ('ce_mac_addr', 'ce_port_key') if k == 1 else ('rb_mac_addr', 'rb_priority')
+            return {'type': k, 'value': {names[0]: mt, names[1]: x}}, SP.cat(SP.be(k, 1), mb, SP.be(x, 2), b'\x00')
+        if k == 3:
+            mt, mb = mac_value(it, 'esi_' + tag)
+            ld = sym_int(it, 'esi_ld_' + tag, 0, 2 ** 24 - 1)
+            return {'type': 3, 'value': {'sys_mac_addr': mt, 'ld_value': ld}}, SP.cat(b'\x03', mb, SP.be(ld, 3))
+        a, ld = sym_int(it, 'esi_a_' + tag, 0, 2 ** 32 - 1), sym_int(it, 'esi_ld_' + tag, 0, 2 ** 32 - 1)
+        name = 'router_id' if k == 4 else 'as_num'
+        return {'type': k, 'value': {name: a, 'ld_value': ld}}, SP.cat(SP.be(k, 1), SP.be(a, 4), SP.be(ld, 4), b'\x00')
+
+    def esic_args(it):
+        it._mp = esi_value(it, 'a')
+        return [it._mp[0]]
+    U('EVPN.construct_esi', EV + 'EVPN.construct_esi', esic_args, lambda it, d: ('ret', it._mp[1]))
+
+    def esip_args(it):
+        it._mp = esi_value(it, 'a')
+        return [SBytes.of(it._mp[1])]
+    U('EVPN.parse_esi', EV + 'EVPN.parse_esi', esip_args, lambda it, d: ('ret', it._mp[0]))
+
+    def ip_value(it, tag):
+        """(text or None, length octet + address octets): absent / IPv4 / IPv6"""
+        k = it.p.choose(3, 'ip-' + tag)
+        if k == 0:
+            return None, b'\x00'
+        w = 4 if k == 1 else 16
+        a = addr_full(it, 'ip_' + tag, w)
+        return (STR.ip4 if w == 4 else STR.ip6)(a), SP.cat(SP.be(8 * w, 1), octets_bytes(a.octs, w))
+
+    def evpn_route(it, rtype, tag, small=False):
+        """(value dict, route-type-specific octets)"""
+        rd = rd_value(it, tag, kind=0 if small else None)
+        tagid = sym_int(it, 'eth_tag_' + tag, 0, 2 ** 32 - 1)
+        if rtype == 1:
+            esi = esi_value(it, tag, kind=0 if small else None)
+            lb = one_label(it, tag)
+            return ({'rd': rd[0], 'esi': esi[0], 'eth_tag_id': tagid, 'label': list(lb)},
+                    SP.cat(rd[1], esi[1], SP.be(tagid, 4), label_stack_enc(lb, evpn=True)))
+        if rtype == 2:
+            esi = esi_value(it, tag, kind=0)
+            mt, mb = mac_value(it, tag)
+            ipt, ipb = ip_value(it, tag)
+            two = it.p.branch(z3.Bool('two_labels_' + tag))
+            lb = [sym_int(it, 'label_%s_a' % tag, 0, 2 ** 20 - 1)] + one_label(it, tag) if two else one_label(it, tag)
+            v = {'rd': rd[0], 'esi': esi[0], 'eth_tag_id': tagid, 'mac': mt, 'label': list(lb)}
+            if ipt is not None:
+                v['ip'] = ipt
+            return v, SP.cat(rd[1], esi[1], SP.be(tagid, 4), b'\x30', mb, ipb, label_stack_enc(lb, evpn=True))
+        if rtype == 3:
+            ipt, ipb = ip_value(it, tag)
+            v = {'rd': rd[0], 'eth_tag_id': tagid}
+            if ipt is not None:
+                v['ip'] = ipt
+            return v, SP.cat(rd[1], SP.be(tagid, 4), ipb)
+        esi = esi_value(it, tag, kind=0 if small else None)
+        ipt, ipb = ip_value(it, tag)
+        v = {'rd': rd[0], 'esi': esi[0]}
+        if ipt is not None:
+            v['ip'] = ipt
+        return v, SP.cat(rd[1], esi[1], ipb)
+
+    RT_CLASS = {1: 'EthernetAutoDiscovery', 2: 'MacIPAdvertisment', 3: 'InclusiveMulticastEthernetTag', 4: 'EthernetSegment'}
+    for rt in (1, 2, 3, 4):
+        def rc_args(it, rt=rt):
+            it._mp = evpn_route(it, rt, 'r0')
+            close_zero_flag(it)
+            return [it._mp[0]]
+        U('%s.construct' % RT_CLASS[rt], EV + RT_CLASS[rt] + '.construct', rc_args, lambda it, v, *a: ('ret', it._mp[1]))
+
+        def rp_args(it, rt=rt):
+            it._mp = evpn_route(it, rt, 'r0')
+            close_zero_flag(it)
+            return [SBytes.of(it._mp[1])]
+        U('%s.parse' % RT_CLASS[rt], EV + RT_CLASS[rt] + '.parse', rp_args, lambda it, v, *a: ('ret', it._mp[0]), concrete_loops=True)
+
+    def evpn_list(it):
+        n = 1 + it.p.choose(2, 'n-routes')
+        rts = [1 + it.p.choose(4, 'route-type-0')] + ([3] if n == 2 else [])
+        items = [evpn_route(it, rt, 'r%d' % i, small=True) for i, rt in enumerate(rts)]
+        close_zero_flag(it)
+        return rts, items
+
+    def evc_args(it):
+        it._mp = evpn_list(it)
+        return [[{'type': rt, 'value': v} for rt, (v, b) in zip(*it._mp)]]
+
+    def evpn_enc(mp):
+        rts, items = mp
+        return SP.cat(*[SP.cat(SP.be(rt, 1), SP.be(SP.blen(b), 1), b) for rt, (v, b) in zip(rts, items)])
+    U('EVPN.construct', EV + 'EVPN.construct', evc_args, lambda it, l: ('ret', evpn_enc(it._mp)))
+
+    def evp_args(it):
+        it._mp = evpn_list(it)
+        return [SBytes.of(evpn_enc(it._mp))]
+    U('EVPN.parse', EV + 'EVPN.parse', evp_args,
+      lambda it, d: ('ret', [{'type': rt, 'value': v} for rt, (v, b) in zip(*it._mp)]), concrete_loops=True)
     return us
